@@ -229,7 +229,14 @@ func (e *Engine) verifIntrinsic(name string) Intrinsic {
 	case "verifFile":
 		// verifFile(content string) *os.File : a file of the engine's file model
 		return func(e *Engine, st *State, c ssa.CallInstruction, a []Value) []*State {
-			id := e.alloc(st, StructV{F: []Value{a[0].(StrV), e.TT.Int(0), e.TT.False}})
+			id := e.alloc(st, StructV{F: []Value{a[0].(StrV), e.TT.Int(0), e.TT.False, e.TT.False}})
+			e.setResult(st, c, PtrV{Obj: id})
+			return nil
+		}
+	case "verifFileShort":
+		// like verifFile, but every Read may return a single byte instead of all it could (short reads)
+		return func(e *Engine, st *State, c ssa.CallInstruction, a []Value) []*State {
+			id := e.alloc(st, StructV{F: []Value{a[0].(StrV), e.TT.Int(0), e.TT.False, e.TT.True}})
 			e.setResult(st, c, PtrV{Obj: id})
 			return nil
 		}
